@@ -420,6 +420,11 @@ def run_C09(ctx, K):
     if rep:
         ctx.coq_cases += rep.get("coq_cases", 0)
         K.run_cases(ctx, cases, "Engine.v (memoized binds)~incrutil.BindMemoized (memo stream)")
+    # the same programs under ParallelStabilize: deterministic replay at parallelism 1, twin comparison
+    rep2, cases2 = run_par_stream(ctx, K, b, "memo", 1, tier_n(ctx, 60, 1000), "par1_memo", False, claim="C09", include="C01,C04,C05,C06,C07,C10")
+    if rep2:
+        ctx.coq_cases += rep2.get("coq_cases", 0)
+        K.run_cases(ctx, cases2, "Engine.parStabilize (memoized binds)~ParallelStabilize(parallelism 1), memo stream")
     cases = os.path.join(ctx.rundir, "cases_C09_keys.v")
     rep = K.run_tool(ctx, b, ["-mode", "memokeys", "-len", str(tier_n(ctx, 5, 7)), "-claim", "C09", "-include", "C01,C05,C06,C07,C10",
                               "-coq", cases, "-coqmax", str(tier_n(ctx, 60, 400)), "-seed", str(ctx.seed)], "memo-keys")
